@@ -122,6 +122,8 @@ type FuncSpec struct {
 	Pure     bool
 	NoPanic  bool
 	Atomic   []Clause
+	OpaquePure bool // 'opaque-calls pure': function values that are not parameters may be called; assumed not to touch the state in question
+	LockInvs []Clause // 'lockinv': invariant of the guarded state, assumed after every acquire, proved at every release
 	Pures    []Clause // 'cs-pure': what 'guarded state unchanged' means for the non-final critical sections
 	InlineCalls []string // callees executed in place in this function although they have a contract
 	Params   map[string]*ParamSpec
@@ -498,7 +500,7 @@ var clauseKW = map[string]bool{
 	"spec": true, "func": true, "lemma": true, "guarded": true,
 	"requires": true, "ensures": true, "modifies": true, "ghost": true, "loop": true,
 	"invariant": true, "decreases": true, "unfold": true, "inline": true, "trusted": true,
-	"pure": true, "atomic": true, "param": true, "induction": true, "havoc": true, "nopanic": true, "unroll": true, "known-finding": true, "apply": true, "assert": true, "witness": true, "cs-pure": true, "inline-call": true,
+	"pure": true, "atomic": true, "param": true, "induction": true, "havoc": true, "nopanic": true, "unroll": true, "known-finding": true, "apply": true, "assert": true, "witness": true, "cs-pure": true, "inline-call": true, "lockinv": true, "opaque-calls": true,
 }
 
 type rawClause struct {
@@ -616,6 +618,20 @@ func ParseContractFile(path string, src []byte, ps *PkgSpec) error {
 			a := strings.SplitN(parts[0], ".", 2)
 			b := strings.SplitN(parts[2], ".", 2)
 			ps.Guards = append(ps.Guards, &GuardSpec{Type: a[0], Fields: []string{a[1]}, Mutex: b[1]})
+		case "opaque-calls":
+			if cur == nil {
+				return fmt.Errorf("%s:%d: opaque-calls outside func", path, rc.line)
+			}
+			cur.OpaquePure = true
+		case "lockinv":
+			c, err := mkClause(rc)
+			if err != nil {
+				return err
+			}
+			if cur == nil {
+				return fmt.Errorf("%s:%d: lockinv outside func", path, rc.line)
+			}
+			cur.LockInvs = append(cur.LockInvs, c)
 		case "cs-pure":
 			c, err := mkClause(rc)
 			if err != nil {
